@@ -166,6 +166,168 @@ def brute_force(dag):
     return ("ok", {nm: acc[nm] / z for nm in acc})
 
 
+# ------------------------------------------------------------------ symbolic semiring: model = implementation, reader = Python
+SYM_HEADER = """From Coq Require Import List Bool Arith String QArith.
+From PL.C10 Require Import ModelCircuit.
+From PL.C05 Require Import ModelSym.
+Import ListNotations.
+Local Open Scope string_scope.
+Definition wtab (t : list (nat * (string * string))) (v : nat) (b : bool) : sx :=
+  match find (fun p => Nat.eqb (fst p) v) t with
+  | Some (_, (p, n)) => SAtom (if b then p else n)
+  | None => SAtom "1"
+  end.
+Definition atab (t : list (string * Q)) (s : string) : Q :=
+  match find (fun p => String.eqb (fst p) s) t with Some (_, q) => q | None => 0%Q end.
+Definition ev_ok (t : list (nat * (string * string))) (C : circuit) (s : string) : bool :=
+  String.eqb (print (c_eval_l SymOps (wtab t) C)) s.
+Definition rd_ok (t : list (string * Q)) (ts : list tok) (s : string) (q : Q) : bool :=
+  String.eqb (spell_all ts) s && match readQ (atab t) ts with Some r => Qeq_bool r q | None => false end.
+"""
+
+
+def symbolic_dump(kc):
+    """The compiled DDNNF as the evaluator sees it under SemiringSymbolic: nodes (atoms named by their own node key),
+    the (pos, neg) weight strings of extract_weights, and the string SimpleDDNNFEvaluator computes for the root."""
+    from problog.evaluator import SemiringSymbolic
+    from problog.ddnnf_formula import SimpleDDNNFEvaluator
+    ev = SimpleDDNNFEvaluator(kc, SemiringSymbolic())
+    ev._initialize(False)
+    nodes = []
+    for i, node, t in kc:
+        if t == "atom":
+            nodes.append(("A", i))
+        else:
+            ch = []
+            for c in node.children:
+                if c is None:
+                    ch.append(("F",))
+                elif c == 0:
+                    ch.append(("T",))
+                elif c > 0:
+                    ch.append(("P", c - 1))
+                else:
+                    ch.append(("N", -c - 1))
+            nodes.append(("C" if t == "conj" else "D", ch))
+    weights = {int(i): (str(w[0]), str(w[1])) for i, w in ev.weights.items() if i != 0}
+    return {"nodes": nodes, "weights": weights, "root": str(ev._get_weight(len(kc)))}
+
+
+def coq_circuit(nodes):
+    def ref(r):
+        return {"T": "RT", "F": "RF"}.get(r[0]) or ("(%s %d%%nat)" % ("RPos" if r[0] == "P" else "RNeg", r[1]))
+    items = []
+    for kind, arg in nodes:
+        if kind == "A":
+            items.append("Atom %d%%nat" % arg)
+        else:
+            items.append("%s [%s]" % ("Conj" if kind == "C" else "Disj", "; ".join(ref(r) for r in arg)))
+    return "[" + "; ".join(items) + "]"
+
+
+NUM = re.compile(r"\d+(?:\.\d*)?(?:[eE][+-]?\d+)?")
+
+
+def lex_symbolic(s):
+    """Cut a SemiringSymbolic result into the tokens of ModelSym.v (fails closed)."""
+    toks, atoms, i = [], set(), 0
+    while i < len(s):
+        m = NUM.match(s, i)
+        if m:
+            toks.append("TAtom " + vf.coq_string(m.group(0)))
+            atoms.add(m.group(0))
+            i = m.end()
+        elif s.startswith(" + ", i):
+            toks.append("TPlus"); i += 3
+        elif s.startswith(" / ", i):
+            toks.append("TSlash"); i += 3
+        elif s[i] in "()*-":
+            toks.append({"(": "TLP", ")": "TRP", "*": "TStar", "-": "TMinus"}[s[i]]); i += 1
+        else:
+            raise ValueError("cannot lex %r at %d" % (s, i))
+    return toks, atoms
+
+
+def exact_value(s):
+    """Python's own reading of the expression (ast of `eval` mode), computed with exact rationals."""
+    import ast
+    tree = ast.parse(s, mode="eval")
+
+    def go(n):
+        if isinstance(n, ast.Expression):
+            return go(n.body)
+        if isinstance(n, ast.Constant) and isinstance(n.value, (int, float)) and not isinstance(n.value, bool):
+            return Fraction(ast.get_source_segment(s, n))
+        if isinstance(n, ast.BinOp) and isinstance(n.op, (ast.Add, ast.Sub, ast.Mult, ast.Div)):
+            a, b = go(n.left), go(n.right)
+            if isinstance(n.op, ast.Add):
+                return a + b
+            if isinstance(n.op, ast.Sub):
+                return a - b
+            if isinstance(n.op, ast.Mult):
+                return a * b
+            return a / b
+        raise ValueError("unexpected syntax %s in %r" % (type(n).__name__, s))
+    return go(tree)
+
+
+def coq_q(fr):
+    return "(%d # %d)%%Q" % (fr.numerator, fr.denominator)
+
+
+def symbolic_ties(ctx, outs):
+    """(1) print (c_eval_l SymOps w C) evaluated by Coq == the string SimpleDDNNFEvaluator + SemiringSymbolic computes;
+    (2) the Coq reader on the tokens of every observed symbolic result == Python's reading of that string (exact)."""
+    cases, what = [], []
+    seen = set()
+    for o in outs:
+        sd = o.get("sym_dump")
+        if sd is not None:
+            if "error" in sd:
+                ctx.broken.append("harness:symbolic dump failed %s on %r" % (sd["error"], o["src"]))
+            else:
+                tab = "[" + "; ".join("(%d%%nat, (%s, %s))" % (i, vf.coq_string(p), vf.coq_string(n))
+                                      for i, (p, n) in sorted(sd["weights"].items())) + "]"
+                cases.append("ev_ok %s %s %s" % (tab, coq_circuit(sd["nodes"]), vf.coq_string(sd["root"])))
+                what.append(("evaluator", o["src"], sd["root"]))
+                ctx.count("symbolic_tie:evaluator string")
+        for b, sname, r in o.get("runs", []):
+            if sname != "symbolic" or r[0] != "ok" or not r[2]:
+                continue
+            for expr in r[2].values():
+                if expr in seen:
+                    continue
+                seen.add(expr)
+                try:
+                    toks, atoms = lex_symbolic(expr)
+                    val = exact_value(expr)
+                except ZeroDivisionError:
+                    ctx.count("symbolic_tie:reader skipped (division by zero)")
+                    continue
+                except (ValueError, SyntaxError) as e:
+                    ctx.count("symbolic_tie:reader skipped (cannot lex/parse)")
+                    ctx.notes.append("symbolic reader tie skipped: %s" % (e,))
+                    continue
+                atab = "[" + "; ".join("(%s, %s)" % (vf.coq_string(a), coq_q(Fraction(a))) for a in sorted(atoms)) + "]"
+                cases.append("rd_ok %s [%s] %s %s" % (atab, "; ".join(toks), vf.coq_string(expr), coq_q(val)))
+                what.append(("reader", o["src"], expr))
+                ctx.count("symbolic_tie:reader")
+    if not cases:
+        return
+    try:
+        bad = ctx.coq_failing(SYM_HEADER, cases, name="c05sym", shard=60)
+    except RuntimeError as e:
+        ctx.broken.append("correspondence:symbolic model could not be evaluated by Coq")
+        ctx.notes.append(str(e)[-2000:])
+        return
+    for i in bad:
+        kind, src, expr = what[i]
+        if kind == "evaluator":
+            ctx.broken.append("correspondence:print (c_eval_l SymOps w C) differs from SimpleDDNNFEvaluator's string %r on %r" % (expr, src))
+        else:
+            ctx.broken.append("correspondence:Coq reader and Python disagree on the symbolic result %r (program %r)" % (expr, src))
+
+
 # ------------------------------------------------------------------ worker
 def c05_case(src):
     out = {"src": src}
@@ -233,6 +395,12 @@ def c05_case(src):
         # its root value must be the unconditioned weighted model count
         if type(kc).__name__ == "DDNNF" and bname == "ddnnf" and len(kc) > 0:
             try:
+                out["sym_dump"] = symbolic_dump(kc)
+            except BaseException as e:  # noqa
+                if isinstance(e, (KeyboardInterrupt, SystemExit)):
+                    raise
+                out["sym_dump"] = {"error": repr(e)}
+            try:
                 ev = FormulaEvaluatorNSP(kc, CustomProb())
                 ev.propagate()
                 out["nsp_root"] = float(ev.evaluate(len(kc)))
@@ -266,6 +434,18 @@ def reparenthesised(raw):
     return res
 
 
+def generate(ctx):
+    """C05_symbolic_is_source is about the C12 translator's rendering of class SemiringSymbolic: regenerate it from the
+    current sources (same generator and file as C12/C30 use)."""
+    import importlib.util
+    path = os.path.join(vf.VERIF, "gen", "c12_semiring.py")
+    spec = importlib.util.spec_from_file_location("c12_semiring", path)
+    mod = importlib.util.module_from_spec(spec)
+    spec.loader.exec_module(mod)
+    text, _ = mod.translate(vf.REPO)
+    ctx.generate("C12/GenSemirings.v", text)
+
+
 def run(ctx):
     ctx.cov["rule"] = ("random ProbLog programs (C10/C05 generator: facts, ADs, stratified negation, positive recursion, graph "
                        "reachability, evidence); every available backend x 6 semiring configurations; non-trivial = the program has "
@@ -274,7 +454,12 @@ def run(ctx):
     ctx.assumptions += ["PySDD / dd are not installed: sdd, sddx, fsdd, bdd, fbdd raise InstallError and are recorded as unavailable",
                         "kbest is not an exact-WMC backend and is left to C23",
                         "judge: brute-force enumeration of total choices of the LogicDAG (<= 16 choices) with exact rationals"]
-    ctx.prove("C05/Props.v")
+    try:
+        generate(ctx)
+        ctx.prove("C05/Props.v")
+    except Exception as e:  # noqa  (the C12 translator fails closed on unknown syntax: the obligations are broken, the judges still run)
+        ctx.cov["obligations"] = max(ctx.cov["obligations"], 1)
+        ctx.broken.append("translator:cannot translate SemiringSymbolic from the current sources (%s: %s)" % (type(e).__name__, str(e)[:300]))
     ctx.log("proofs checked")
     if ctx.tier == "thorough":
         ctx.coqchk("PL.C05.Props")
@@ -378,4 +563,6 @@ def run(ctx):
                              ("; symbolic expression: %r" % (r[2],)) if r[2] else ""),
                           {"src": src, "backend": b, "semiring": s, "observed": got, "expected": C10.fmt(refx) if refx[0] == "ok" else refx,
                            "symbolic": r[2]}, klass=klass)
+    symbolic_ties(ctx, outs)
+    ctx.log("symbolic ties done")
     ctx.cov["programs_compared"] = len(todo)
